@@ -10,7 +10,7 @@
     write: a failure leaves an existing destination untouched, a missing destination is created,
     nothing is written when nothing differs. *)
 From WT Require Import Base.Wrap Base.ListX Model.Time Model.Ring Model.Update Spec.LogSpec Model.Handle Model.Cmd
-  Proofs.TimeProofs Proofs.FetchProofs Proofs.ChainProofs Proofs.HistoryProofs Proofs.CmdProofs Proofs.FrameProofs Proofs.CopyProofs Proofs.LayoutBridge.
+  Proofs.TimeProofs Proofs.FetchProofs Proofs.ChainProofs Proofs.HistoryProofs Proofs.CmdProofs Proofs.FrameProofs Proofs.CopyProofs Proofs.LayoutBridge Model.World Proofs.WorldProofs.
 
 Theorem C08_failure_leaves_existing_dest F src dh o until now :
   r_status (copy_core F src (Some dh) o until now) <> StOk ->
@@ -121,6 +121,41 @@ Proof.
   destruct (tsl_diff true sl dl') as [a b]. cbn [fst snd] in Hemp. rewrite Hemp. reflexivity.
 Qed.
 Print Assumptions C08_then_diff_is_clean.
+
+(** ** with a glob pattern: one job (source, destination) per matched file, run in order on the
+    files the previous jobs left ([run_copies]; the harness pairs every matched source with the same
+    relative path under the destination base).  When no file is both a source and a destination
+    and the destinations are distinct ([separate]), a run that reports success has done, for EVERY
+    matched file, exactly what the single-file copy does on the files as they were (which by the
+    theorems above makes that destination equal to its source over the window), and no other file
+    -- in particular no source -- has changed. *)
+Theorem C08_glob_copies_every_matched_file F o w jobs nows dflt w' out :
+  separate (Z * Z) snd copy_reads jobs ->
+  run_copies F false o w jobs nows dflt = (w', StOk, out) ->
+  (forall i s d, nth_error jobs i = Some (s, d) ->
+     let r := copy_one F (wget w s) (wget w d) o (now_at nows dflt i) in
+     r_status r = StOk /\
+     wget w' d = match r_dest r with Some h => Some h | None => wget w d end) /\
+  (forall k, (forall j, In j jobs -> k <> snd j) -> wget w' k = wget w k).
+Proof. exact (glob_copies_every_matched_file F o w jobs nows dflt w' out). Qed.
+Print Assumptions C08_glob_copies_every_matched_file.
+
+(** ... and a run that fails stopped at the first file whose copy fails alone: the files before it
+    were copied, the destinations after it are untouched *)
+Theorem C08_glob_stops_at_first_failure F o w jobs nows dflt w' st out :
+  separate (Z * Z) snd copy_reads jobs -> st <> StOk ->
+  run_copies F false o w jobs nows dflt = (w', st, out) ->
+  exists n s d, nth_error jobs n = Some (s, d) /\
+    r_status (copy_one F (wget w s) (wget w d) o (now_at nows dflt n)) = st /\
+    (forall i s' d', (i < n)%nat -> nth_error jobs i = Some (s', d') ->
+       r_status (copy_one F (wget w s') (wget w d') o (now_at nows dflt i)) = StOk) /\
+    (forall i l, (n < i)%nat -> nth_error jobs i = Some l -> wget w' (snd l) = wget w (snd l)).
+Proof. exact (glob_stops_at_first_failure F o w jobs nows dflt w' st out). Qed.
+Print Assumptions C08_glob_stops_at_first_failure.
+
+(** the separation premise is what a glob run gives: sources under one base, destinations under another *)
+Example C08_glob_example : separate (Z * Z) snd copy_reads [(1, 11); (2, 12); (3, 13)].
+Proof. cbn; repeat split; try (repeat constructor; cbn; intuition lia). Qed.
 
 (** the premises are satisfiable: a freshly created destination is represented by empty logs *)
 Example C08_example : exists d logs,
